@@ -48,6 +48,8 @@ var methodShapes = []secShape{
 	{"S1[a]", []scen.Sec{sec("S1", "a")}},
 	{"s1[a]|s[b]", []scen.Sec{sec("s1", "a"), sec("s", "b")}},
 	{"s1x[a]", []scen.Sec{sec("s1x", "a")}},
+	// scopes with characters that template engines and encoders like to rewrite
+	{"s1[pets:read&write,it's <all>]", []scen.Sec{sec("s1", "pets:read&write", "it's <all>")}},
 	// the very same alternative written twice
 	{"s1[a]|s1[a]", []scen.Sec{sec("s1", "a"), sec("s1", "a")}},
 }
